@@ -35,6 +35,7 @@ type task struct {
 	id       int
 	key      int
 	badURI   bool
+	alt      bool // asks for the layer under its second URI
 	ctx      context.Context
 	cancel   context.CancelFunc
 	layer    *claircore.Layer
@@ -205,6 +206,9 @@ func (s *sched) witness() string {
 }
 
 func (s *sched) fail(class, what string) {
+	if class == "" {
+		stopCollecting()
+	}
 	s.r.Fail(class, what+" "+s.witness())
 }
 
@@ -562,6 +566,32 @@ func (s *sched) emitAs(line, witness, outcome string) {
 	}
 	if !s.broken {
 		s.fdCheck(n)
+		s.refCheck()
+	}
+}
+
+// refCheck is the counting half of the statement at every step: the count of every rc is
+// the number of tasks that have taken a reference on it and not given it up.
+func (s *sched) refCheck() {
+	want := map[any]int{}
+	for _, t := range s.tasks {
+		switch t.st {
+		case "reffed", "valok", "stale", "holding":
+			if g := s.genOf(t); g != nil {
+				want[g]++
+			}
+		}
+	}
+	s.mu.Lock()
+	defer s.mu.Unlock()
+	for k, gs := range s.gens {
+		for i, x := range gs {
+			if c, _ := libindex.RcStateForVerif(x); c != want[x] {
+				s.r.Fail("", fmt.Sprintf("reference-count-of-key=%d gen=%d is=%d references-taken-and-not-closed=%d %s", k, i, c, want[x], s.witness()))
+				stopCollecting()
+				return
+			}
+		}
 	}
 }
 
@@ -729,10 +759,18 @@ func (s *sched) settle() {
 
 // ---- the operations: each releases exactly one atomic section of the real code
 
-func (s *sched) spawn(k int, badURI bool) *task {
+func (s *sched) spawn(k int, badURI bool) *task { return s.spawnAt(k, badURI, false) }
+
+func (s *sched) spawnAt(k int, badURI, alt bool) *task {
 	ctx, cancel := context.WithCancel(context.Background())
-	t := &task{id: len(s.tasks), key: k, badURI: badURI, ctx: ctx, cancel: cancel, layer: new(claircore.Layer), gen: -1}
+	t := &task{id: len(s.tasks), key: k, badURI: badURI, alt: alt, ctx: ctx, cancel: cancel, layer: new(claircore.Layer), gen: -1}
 	t.desc = s.srv.desc(k, badURI)
+	if alt && !badURI {
+		t.desc.URI = s.srv.altURI(k)
+		if !s.quiet {
+			s.r.Count("branch:same-digest-under-a-second-uri")
+		}
+	}
 	s.byPtr[unsafe.StringData(t.desc.Digest)] = &descRef{t: t}
 	s.tasks = append(s.tasks, t)
 	do := s.arena.FetchIntoForVerif(ctx, t.layer, &t.cl, &t.desc)
@@ -753,6 +791,8 @@ func (s *sched) spawn(k int, badURI bool) *task {
 	s.emit(fmt.Sprintf("spawn %d", k), fmt.Sprintf("task %d", t.id))
 	if badURI {
 		s.ops[len(s.ops)-1] += " baduri" // the witness is a replayable script
+	} else if alt {
+		s.ops[len(s.ops)-1] += " alt"
 	}
 	return t
 }
@@ -1109,6 +1149,10 @@ func (s *sched) val(t *task) {
 		}
 	default:
 		t.st = "failed"
+		if site == "finished" {
+			// neither a descriptor nor errStale: the user fails although nothing went wrong
+			s.fail("", fmt.Sprintf("task%d-failed-in-Val-without-a-fault key=%d err=%v", t.id, t.key, t.err))
+		}
 	}
 	s.emit(fmt.Sprintf("val %d", t.id), out)
 }
@@ -1564,6 +1608,9 @@ func (s *sched) finish(cancelled bool) {
 	if n := dirEntries(s.root); n != 0 {
 		s.fail("", fmt.Sprintf("files-left-in-arena-dir n=%d", n))
 	}
+	if n := checkedOutConns(s.srv.ts.Client()); n != 0 {
+		s.fail("", fmt.Sprintf("http-connections-still-checked-out-after-every-fetch-ended n=%d", n))
+	}
 }
 
 func (s *sched) teardown() {
@@ -1668,7 +1715,7 @@ func randomScenario(r *hx.Run, rnd *hx.Rand, layers []*layer, maxTasks, maxSteps
 		drain := step >= maxSteps || len(s.tasks) >= maxTasks
 		cs := s.enabled(rnd, step >= maxSteps)
 		if !drain || (len(cs) == 0 && len(s.tasks) < maxTasks && step < maxSteps) {
-			cs = append(cs, choice{12, func() { s.spawn(pickKey(), rnd.Chance(1, 15)) }, "spawn"})
+			cs = append(cs, choice{12, func() { s.spawnAt(pickKey(), rnd.Chance(1, 15), rnd.Chance(1, 6)) }, "spawn"})
 			if proxies {
 				cs = append(cs, choice{8, func() {
 					var px *proxy
